@@ -104,6 +104,12 @@ class LinePostProcessor(PostProcessor):
         my_generator.generate_all(False, True, True, [c_style])
     """
 
+    def reset(self) -> None:
+        """
+        Invoked before the first line of each generated file. Processors that keep state between lines
+        (e.g. counters) override this to forget what they saw in the previous file.
+        """
+
     @abc.abstractmethod
     def __call__(self, line_and_lineend: typing.Tuple[str, str]) -> typing.Tuple[str, str]:
         """
@@ -215,6 +221,9 @@ class LimitEmptyLines(LinePostProcessor):
 
     def __init__(self, max_empty_lines: int):
         self._max_empty_lines = max_empty_lines
+        self._empty_line_count = 0
+
+    def reset(self) -> None:
         self._empty_line_count = 0
 
     def __call__(self, line_and_lineend: typing.Tuple[str, str]) -> typing.Tuple[str, str]:
